@@ -25,7 +25,7 @@ FUNCS = [
     "acnportal.acnsim.models.battery.Battery.__init__", "acnportal.acnsim.models.ev.EV.__init__",
 ]
 ASSUMPTIONS = [
-    "instants are whole seconds >= 0 (what ACN-Data delivers); datetime.timestamp() is that integer; Python floats modelled as exact reals, so int(ts / (60*period)) is the exact floor of the quotient (the IEEE counterpart - floor(fl(a/d)) == a div d for a < 2^53, d <= 2^21 - is discharged as a separate floating-point query in the thorough tier)",
+    "documents carry aware datetimes in a zone with a whole-hour UTC offset (job parameter, -8 ... +9 h), the simulation start is given in UTC; instants are whole seconds >= 0 (what ACN-Data delivers); datetime.timestamp() is that integer; Python floats modelled as exact reals, so int(ts / (60*period)) is the exact floor of the quotient (the IEEE counterpart - floor(fl(a/d)) == a div d for a < 2^53, d <= 2^21 - is discharged as a separate floating-point query in the thorough tier)",
     "period in {1, 5, 15, 60} minutes (concrete per job); disconnect >= connect; energies, powers, max_len symbolic",
     "stochastic converter: max_len is compared with the duration in the unit the existing test suite pins (hours) although the docstring says periods; the duration handed to capacity_fn is in hours there and in periods in acndata_events - recorded, not judged (the statement's last sentence concerns the fit function itself)",
     "capacity fit: only the closed-form branch (initial SoC at or above the transition SoC) is claimed; paths that enter the binary search (recursion whose depth depends on a transcendental residual) are cut and counted as outside the claim; voltage, period and stay are concrete per job, the request is symbolic; exp of a concrete argument is numpy's double (compared with 1e-9 relative slack)",
@@ -33,20 +33,59 @@ ASSUMPTIONS = [
 EXPECT_GLOBAL_TAGS = ("doc:max_len_cut", "doc:force_feasible_cut", "doc:capacity_fn", "matrix:valid", "matrix:invalid_skipped", "fit:closed_form")
 
 
-class StubDT:
-    """a datetime of which the converter only uses timestamp()"""
+class _WallTuple:
+    def __init__(self, wall):
+        self.wall = wall
 
+
+class _Delta:
     def __init__(self, secs):
         self.secs = secs
 
+    def total_seconds(self):
+        return self.secs
+
+
+class StubDT:
+    """an aware datetime: `secs` is the instant (timestamp()), `offset` the UTC offset of its zone; its wall-clock fields are only
+    reachable through timetuple() (understood by the calendar proxy below) and utcoffset()"""
+
+    microsecond = 0
+
+    def __init__(self, secs, offset=0):
+        self.secs, self.offset = secs, offset
+
     def timestamp(self):
         return self.secs
+
+    def timetuple(self):
+        return _WallTuple(self.secs + self.offset)
+
+    def utctimetuple(self):
+        return _WallTuple(self.secs)
+
+    def utcoffset(self):
+        return _Delta(self.offset)
+
+
+class _CalendarProxy:
+    def __getattr__(self, k):
+        import calendar
+
+        return getattr(calendar, k)
+
+    def timegm(self, tt):
+        if isinstance(tt, _WallTuple):
+            return tt.wall
+        import calendar
+
+        return calendar.timegm(tt)
 
 
 def mk_dt(cx, name, tz_hours, lo=0, hi=2 * 10 ** 9):
     secs = cx.int(name, lo, hi)
     if cx.mode == "sym":
-        return StubDT(secs), secs
+        return StubDT(secs, int(tz_hours * 3600)), secs
     import datetime as _dt
 
     return _dt.datetime.fromtimestamp(secs, _dt.timezone(_dt.timedelta(hours=tz_hours))), secs
@@ -78,6 +117,8 @@ def h_doc(cx, period, use_max_len, force_feasible, battery_mode, tz_hours):
     cx.patch(AE, "int", core.sym_int, must_exist=False)
     cx.patch(AE, "min", core.sym_min, must_exist=False)
     cx.patch(AE, "math", _MathProxy())
+    cx.patch(AE, "calendar", _CalendarProxy(), must_exist=False)
+    cx.patch(AE, "time", _CalendarProxy(), must_exist=False) if False else None
     start, s_secs = mk_dt(cx, "start_secs", 0)
     conn, c_secs = mk_dt(cx, "connect_secs", tz_hours)
     disc, d_secs = mk_dt(cx, "disconnect_secs", tz_hours)
